@@ -37,7 +37,7 @@ PruneStep == /\ phase = "running" /\ plan = <<>>
 Crash == phase = "running" /\ phase' = "crashed" /\ UNCHANGED <<st, cur, plan, pre, nprior>>
 Restart == /\ phase = "crashed" /\ st' = RestartSt(st, NoPrune) /\ phase' = "restarted" /\ UNCHANGED <<cur, plan, pre, nprior>>
 Redo == /\ phase = "restarted"
-        /\ IF Enabled(st, cur) THEN st' = Complete(st, cur, NoPrune) /\ phase' = "redone"
+        /\ IF Enabled(st, cur) /\ PullFails(st, cur) = "no" THEN st' = Complete(st, cur, NoPrune) /\ phase' = "redone"
                                  ELSE st' = st /\ phase' = "redofailed"
         /\ UNCHANGED <<cur, plan, pre, nprior>>
 Restart2 == /\ phase = "redone" /\ st' = RestartSt(st, NoPrune) /\ phase' = "final" /\ UNCHANGED <<cur, plan, pre, nprior>>
